@@ -33,7 +33,7 @@ RULE = ('Signature lattice vt.sigs (756 shapes: positional-only 0-2 x positional
         'Non-trivial: the callable was invoked (or must be refused) and >=1 parameter was set; '
         'distinct = (callable, mode, set-pattern, *args length, extras).')
 RULE_ADDITIONS = (' Added by the rounds of seeded changes (DESIGN 9.7): ' +
-                  'misbind:unset-positional-before-set | g(a=1,b=2,/), cfg[1]=5 builds g(5) | fix: fill defaults / raise for gaps when flattening to *args; callables recording the call exactly as it arrives (raw_po, raw_mixed, raw_va); containers of a class derived from a named tuple')
+                  'misbind:unset-positional-before-set | g(a=1,b=2,/), cfg[1]=5 builds g(5) | fix: fill defaults / raise for gaps when flattening to *args; callables recording the call exactly as it arrives (raw_po, raw_mixed, raw_va); containers of a class derived from a named tuple; owndef shard (own default objects after read / build / copy / deepcopy); a **kwargs entry named like a positional-only parameter (known finding)')
 RULE = RULE + RULE_ADDITIONS
 ASSUMPTIONS = [
     'the direct call made by the harness with ArgModel.call_args() is the specification',
